@@ -29,14 +29,14 @@ CONSTANTS NA, NB,            \* inline capacities of the slots
           Copyable, NothrowMove,                    \* element flavour
           AllocIds,          \* allocator ids handed to constructors ({0}: default only)
           Pairs,             \* impl profiles: also explore every PAIR of throw points (second fault inside roll-back code)
-          Kinds              \* range kinds to use (0 input 1 fwd 2 bidir 3 random 4 ptr 5 move_iterator 6 container iterators)
+          Kinds              \* range kinds to use (0 input 1 fwd 2 bidir 3 random 4 ptr 5 move_iterator 6 container iterators 7 fwd construct-only sources)
 
 VARIABLES st, hist, everBig, allocCount
 
 cfg == [na |-> NA, nb |-> NB, isStd |-> IsStd, pocca |-> POCCA, pocma |-> POCMA, pocs |-> POCS, ae |-> AE,
         soccc |-> SOCCC, max |-> MaxSize, copyable |-> Copyable, nothrowMove |-> NothrowMove,
         nothrowMoveCtor |-> NothrowMove, nothrowMoveAssign |-> NothrowMove, hasMove |-> TRUE, construct |-> FALSE,
-        tracked |-> (Profile \in {"impl", "impl2"}), vector |-> FALSE]
+        tracked |-> (Profile \in {"impl", "impl2"}), vector |-> FALSE, flt |-> FALSE, defval |-> 0]
 
 Absent == [p |-> FALSE]
 
@@ -343,7 +343,7 @@ UnaryAll(c) ==
   \cup {O(nm, c, "-", <<pos, al>>) : nm \in {"insert", "emplace_c"}, pos \in IF room >= 1 /\ Copyable THEN Positions(sz) ELSE {}, al \in Aliases(sz)}
   \cup {O(nm, c, "-", <<pos>>) : nm \in {"insert_m", "emplace_v"}, pos \in IF room >= 1 THEN Positions(sz) ELSE {}}
   \cup {O("insert_n", c, "-", <<pos, n, al>>) : pos \in IF Copyable THEN Positions(sz) ELSE {}, n \in cnts, al \in Aliases(sz)}
-  \cup {O("insert_rng", c, "-", <<pos, k, n>>) : pos \in Positions(sz), k \in Kinds, n \in cnts}
+  \cup {O("insert_rng", c, "-", <<pos, k, n>>) : pos \in Positions(sz), k \in Kinds \ {7}, n \in cnts}
   \cup {O("insert_il", c, "-", <<pos, n>>) : pos \in IF Copyable THEN Positions(sz) ELSE {}, n \in cnts \cap (0..6)}
   \cup {O("append_rng", c, "-", <<k, n>>) : k \in Kinds, n \in cnts}
   \cup {O("append_il", c, "-", <<n>>) : n \in IF Copyable THEN cnts \cap (0..6) ELSE {}}
